@@ -78,7 +78,7 @@ EXTRA = {
  "C02": " Many-holder programs (counter width), 13- and 21-key multi-key lists with several keys per shard against short lists on the same shards, fine-mode variants.",
  "C04": " Removed/evicted results held by the caller stay part of the state key; Keys/Items results are re-read after later calls (aliasing); an object handed back by the cache is resized and set again.",
  "C05": " Sets from one caller-owned slice that is reused and read back after every step (aliasing); specs run one per worker process, depth 6 quick / 8 thorough (redis facade 7/9). The fake redis follows the documented SCAN contract (paged, possibly empty pages, stable cursor); a second agreement spec shares the database with 52 keys of other prefixes, which must stay untouched.",
- "C06": " Start timestamps near the top of the timestamp width. Five more epochs (before 1970 with and without a millisecond fraction, 1970, a fraction after 1970).",
+ "C06": " Start timestamps near the top of the timestamp width. Five more epochs (before 1970 with and without a millisecond fraction, 1970, a fraction after 1970). Burst histories: letters are 4095/4096/4097 calls at one clock reading, single calls and restarts (second and third step wrap, wrap after restart, wrap while the clock is behind), depth 4 quick / 5 thorough.",
  "C07": " Calendar sweep: every calendar day the timestamp width reaches from each epoch (first millisecond, the millisecond before, a day-dependent time of day) x 2 (node,step) corners through the same round trips. Range functions on the same instants presented in 11 Locations (odd fixed offsets, daylight-saving zones around every transition of 2022-2024) must agree.",
  "C08": " Iterator counts at the ends of the int range (MaxInt32, MaxInt-3..MaxInt, MinInt, MinInt+1, -2) at pos 0 and 3. GetN calls are guarded: a panic inside the library is a reported violation, not a harness crash.",
  "C09": " Alias probes (decoded sets must not share memory with the input), all 3-byte strings; round trip of every run of 1..65 consecutive indices at every start and of stride-2/3 combs.",
